@@ -12,12 +12,14 @@ EXTENDS Integers, Sequences, TLC, Json
 
 CONSTANTS EmitMod, EmitPick
 
-Leaves == {"bool", "i8", "i16", "i32", "i64", "double", "string", "binary", "E", "P", "TE", "TP", "TI", "TS", "TL", "TM", "TB", "TTP", "TSet"}
-Keys == {"string", "i32", "E", "TI", "TS"}
+Leaves == {"bool", "i8", "i16", "i32", "i64", "double", "string", "binary", "E", "P", "TE", "TP", "TI", "TS", "TL", "TM", "TB", "TTP", "TSet",
+           \* typedefs of typedefs of a primitive, an enum and a container: casts in generated code have to reach the end of the chain
+           "TTI", "TTS", "TTE", "TTL", "TTD", "TTBo"}
+Keys == {"string", "i32", "E", "TI", "TS", "TTI", "TTS"}
 Leaf(n) == [k |-> "leaf", n |-> n, a |-> "", b |-> ""]
 Types == { Leaf(n) : n \in Leaves }
          \cup { [k |-> "list", n |-> "", a |-> x, b |-> ""] : x \in Leaves }
-         \cup { [k |-> "set", n |-> "", a |-> x, b |-> ""] : x \in Leaves \ {"P", "TP", "TTP", "TL", "TM", "TSet"} }
+         \cup { [k |-> "set", n |-> "", a |-> x, b |-> ""] : x \in Leaves \ {"P", "TP", "TTP", "TL", "TM", "TSet", "TTL"} }
          \cup { [k |-> "map", n |-> "", a |-> x, b |-> y] : x \in Keys, y \in Leaves }
 Positions == {"const", "optdefault", "reqdefault", "optplain", "reqplain", "typedefconst", "typedefdefault", "param", "return",
               \* fields and parameters whose value is kept out of logs and text (go.redact / go.nolog): the code that would have
@@ -38,6 +40,7 @@ Spec == Init /\ [][Next]_<<pos, ty>>
 
 
 \* the sample always holds the unlogged leaf types (few, and each needs its own support code)
-Always == pos \in {"optredact", "reqredact", "optnolog", "reqnolog", "paramredact"} /\ ty.k = "leaf"
+Always == \/ pos \in {"optredact", "reqredact", "optnolog", "reqnolog", "paramredact"} /\ ty.k = "leaf"
+          \/ pos \in {"optplain", "reqplain", "param"} /\ (ty.n \in {"TTI", "TTS", "TTE", "TTL", "TTD", "TTBo"} \/ ty.a \in {"TTI", "TTS", "TTD", "TTBo"} \/ ty.b \in {"TTI", "TTS", "TTD", "TTBo"})
 EmitCase == (pos # "" /\ (Always \/ TLCGet("distinct") % EmitMod = EmitPick)) => PrintT(<<"CASE", ToJson([pos |-> pos, ty |-> ty])>>)
 =============================================================================
